@@ -284,6 +284,10 @@ def call_method(eng, st, recv, name, args, kwargs, node):
                 if cdef is not None:
                     cands = [b for b in cdef.body if isinstance(b, ast.FunctionDef) and b.name == name and not b.decorator_list]
                     meth = cands[-1] if cands else None
+                elif name.startswith("_") and not name.startswith("__"):
+                    # the object is modelled under another label than its class name: a PRIVATE method with this name defined exactly once in the file
+                    cands = [b for c_ in eng.module.tree.body if isinstance(c_, ast.ClassDef) for b in c_.body if isinstance(b, ast.FunctionDef) and b.name == name and not b.decorator_list]
+                    meth = cands[0] if len(cands) == 1 else None
             if meth is not None:
                 return inline(eng, st, Fn(f"{o.cls}.{name}", node=meth, closure={}), [recv] + list(args), kwargs)
             # a method we have no contract for on a modelled object: weakest contract
